@@ -1,4 +1,5 @@
 import sys
+import collections
 
 from datapackage import Package
 
@@ -28,6 +29,10 @@ def unstream(file=sys.stdin):
         descriptor = read()
         yield Package(descriptor)
         for _ in descriptor.get('resources', []):
-            yield res_reader()
+            reader = res_reader()
+            yield reader
+            # a later step may stop reading this resource before its end: what it left is skipped here,
+            # up to the separator, so that the next resource starts at its own first row
+            collections.deque(reader, maxlen=0)
 
     return func
